@@ -122,5 +122,5 @@ func VH05h_raw_pipelined() {
 		m.Free()
 	}
 	verif.Reach("pipelined-checked")
-	sock.Close()
+	vp.CloseCensus(sock, "C10/rep-respondent/after-history")
 }
